@@ -50,7 +50,8 @@ TargetOf(b) == IF b = "D1" THEN "T1" ELSE "T2"
 
 (* ---- configuration helpers; c = [place, verd, only1, route, path, dmarc, kind, mod, mfail]      *)
 (* kind: "pipe" recording targets; "rpipe" the real remote target behind block D1; "remote" the  *)
-(* remote target alone with an already flagged message                                          *)
+(* remote target alone with an already flagged message; "qpipe" the real queue behind D1: what   *)
+(* the queue later hands to its own target is the call "relay" on target "Q1"                    *)
 AllChecks(c)    == DOMAIN c.place
 ChecksIn(c, b)  == {k \in AllChecks(c) : b \in c.place[k]}
 RIndex(r)       == CHOOSE i \in 1..3 : RcptSeq[i] = r
@@ -127,13 +128,13 @@ ObsCall(o, c, k, stage, arg, v, cmd) ==
 (* a call arrived at a delivery target; q = MsgMetadata.Quarantine as the target saw it *)
 ObsTgt(o, c, t, op, arg, res, q) ==
   LET mustQ == o.qReq \/ o.qCur \/ (c.dmarc = "quar" /\ op \in {"body", "bodyNA"})
-                \/ (c.dmarc = "quar" /\ op = "commit")
+                \/ (c.dmarc = "quar" /\ op \in {"commit", "relay"})
       mayQ  == o.qAny \/ c.dmarc = "quar" \/ c.kind = "remote"
       o1 == CASE op = "rcpt" -> V(o, ~o.rejCur /\ ~o.modCur /\ ~o.dead /\ arg \notin o.refR, "DeliveredAfterReject")
               [] op \in {"body", "bodyNA"} -> V(o, ~o.rejCur /\ ~o.dead, "DeliveredAfterReject")
-              [] op = "commit" -> V(o, ~o.dead, "DeliveredAfterReject")
+              [] op \in {"commit", "relay"} -> V(o, ~o.dead, "DeliveredAfterReject")
               [] OTHER -> o
-      o2 == IF op \in {"body", "bodyNA", "commit"}
+      o2 == IF op \in {"body", "bodyNA", "commit", "relay"}
             THEN V([o1 EXCEPT !.tF = @ \/ ~q], mustQ => q, "QuarantineNotSeen")
             ELSE o1
       o3 == V(o2, q => mayQ, "QuarantineWithoutVerdict")
